@@ -248,6 +248,7 @@ class NxMixedGraph:
         """
         self.raise_on_counterfactual()
         return _latent_dag(
+            nodes=self.nodes(),
             di_edges=self.directed.edges(),
             bi_edges=self.undirected.edges(),
             prefix=prefix,
@@ -269,6 +270,7 @@ class NxMixedGraph:
                 for a, b in itt.combinations(graph.successors(node), 2):
                     rv.add_undirected_edge(a, b)
             else:
+                rv.add_node(node)
                 for child in graph.successors(node):
                     rv.add_directed_edge(node, child)
         return rv
@@ -745,12 +747,14 @@ def _latent_dag(
     di_edges: Iterable[tuple[Variable, Variable]],
     bi_edges: Iterable[tuple[Variable, Variable]],
     *,
+    nodes: Iterable[Variable] | None = None,
     prefix: str | None = None,
     start: int = 0,
     tag: str | None = None,
 ) -> nx.DiGraph:
     """Create a labeled DAG where bi-directed edges are assigned as nodes upstream of their two incident nodes.
 
+    :param nodes: The nodes of the graph, so that nodes without any edge are kept
     :param di_edges: A list of directional edges
     :param bi_edges: A list of bidirectional edges
     :param prefix: The prefix for latent variables. If none, defaults to :data:`y0.graph.DEFAULT_PREFIX`.
@@ -767,6 +771,7 @@ def _latent_dag(
     bi_edges_list = list(bi_edges)
 
     rv = nx.DiGraph()
+    rv.add_nodes_from(nodes or [])
     rv.add_nodes_from(itt.chain.from_iterable(bi_edges_list))
     rv.add_edges_from(di_edges)
     nx.set_node_attributes(rv, False, tag)
